@@ -65,19 +65,19 @@ iterators dropped at any point), provided no undefined behaviour was recorded: f
 `copies in the (unreleased) buffer + destructor runs + copies handed to the caller by pop_move
    = copies in the initial contents + copies stored by successful pushes and in-place stores`.
 A refused push stores nothing (its value goes back to the caller, C05). -/
-theorem C08_conservation (slots : List Nat) (hasW heap : Bool) (hlen : 1 ≤ slots.length) (ops : List Op)
+theorem C08_conservation (slots : List Nat) (hasW heap : Bool) (hlen : 1 ≤ slots.length) (hlt : slots.length < 2 ^ 63) (ops : List Op)
     (hal : AllowedRun (St.init slots hasW heap true) (Sp.init slots.length hasW) ops)
     (hown : ∀ op ∈ ops, OwnedOp op = true)
     (hnf : (run (St.init slots hasW heap true) ops).1.fault = none) (t : Nat) (ht : t ≠ 0) :
     (run (St.init slots hasW heap true) ops).1.bal t + (handedAll ops (run (St.init slots hasW heap true) ops).2).count t =
       slots.count t + (storedAll ops (run (St.init slots hasW heap true) ops).2).count t := by
-  have := ledger_run (rel_init slots hasW heap true hlen) (lifeInv_init slots hasW heap true) rfl ops hal hown hnf t ht
+  have := ledger_run (rel_init slots hasW heap true hlen hlt) (lifeInv_init slots hasW heap true) rfl ops hal hown hnf t ht
   rw [this]; simp [St.bal, St.inBuf, St.init]
 
 /-- **Destroyed exactly once.** If moreover the tokens are pairwise distinct and the history ends with the buffer
 released, every token that was ever in the buffer was either destroyed exactly once (and never handed out) or handed
 to the caller exactly once (and never destroyed by the buffer): no leak, no double drop. -/
-theorem C08_exactly_once (slots : List Nat) (hasW heap : Bool) (hlen : 1 ≤ slots.length) (ops : List Op)
+theorem C08_exactly_once (slots : List Nat) (hasW heap : Bool) (hlen : 1 ≤ slots.length) (hlt : slots.length < 2 ^ 63) (ops : List Op)
     (hal : AllowedRun (St.init slots hasW heap true) (Sp.init slots.length hasW) ops)
     (hown : ∀ op ∈ ops, OwnedOp op = true)
     (hnf : (run (St.init slots hasW heap true) ops).1.fault = none)
@@ -86,23 +86,23 @@ theorem C08_exactly_once (slots : List Nat) (hasW heap : Bool) (hlen : 1 ≤ slo
     (t : Nat) (ht : t ≠ 0) (hmem : t ∈ slots ++ storedAll ops (run (St.init slots hasW heap true) ops).2) :
     (run (St.init slots hasW heap true) ops).1.drops.count t +
       (handedAll ops (run (St.init slots hasW heap true) ops).2).count t = 1 :=
-  exactly_once slots hasW heap hlen ops hal hown hnf hrel hnd t ht hmem
+  exactly_once slots hasW heap hlen hlt ops hal hown hnf hrel hnd t ht hmem
 
 /-- The same for histories that follow the init discipline (`MRB.Seq.Discipline`): there the absence of undefined
 behaviour is a theorem (`C09_no_zero_use`), not a hypothesis. -/
-theorem C08_exactly_once_init_discipline (slots : List Nat) (hasW heap : Bool) (hlen : 1 ≤ slots.length) (ops : List Op)
+theorem C08_exactly_once_init_discipline (slots : List Nat) (hasW heap : Bool) (hlen : 1 ≤ slots.length) (hlt : slots.length < 2 ^ 63) (ops : List Op)
     (hal : AllowedRun (St.init slots hasW heap true) (Sp.init slots.length hasW) ops) (hd : DiscRun ops)
     (hrel : (run (St.init slots hasW heap true) ops).1.freed ≠ 0)
     (hnd : (slots.filter (· ≠ 0) ++ storedAll ops (run (St.init slots hasW heap true) ops).2).Nodup)
     (t : Nat) (ht : t ≠ 0) (hmem : t ∈ slots ++ storedAll ops (run (St.init slots hasW heap true) ops).2) :
     (run (St.init slots hasW heap true) ops).1.drops.count t +
       (handedAll ops (run (St.init slots hasW heap true) ops).2).count t = 1 :=
-  exactly_once slots hasW heap hlen ops hal (fun op h => (hd op h).owned)
-    (no_fault_run (rel_init slots hasW heap true hlen) (NZ.init _ _) rfl ops hal hd).1 hrel hnd t ht hmem
+  exactly_once slots hasW heap hlen hlt ops hal (fun op h => (hd op h).owned)
+    (no_fault_run (rel_init slots hasW heap true hlen hlt) (NZ.init _ _) rfl ops hal hd).1 hrel hnd t ht hmem
 
 /-- And for the "always full" discipline (buffer built from existing data, plain stores, clone/peek only): every initial
 and every stored token is destroyed exactly once — by the store that replaces it or by the release of the buffer. -/
-theorem C08_exactly_once_full_discipline (slots : List Nat) (hasW heap : Bool) (hlen : 1 ≤ slots.length) (hocc : ∀ v ∈ slots, v ≠ 0)
+theorem C08_exactly_once_full_discipline (slots : List Nat) (hasW heap : Bool) (hlen : 1 ≤ slots.length) (hlt : slots.length < 2 ^ 63) (hocc : ∀ v ∈ slots, v ≠ 0)
     (ops : List Op) (hal : AllowedRun (St.init slots hasW heap true) (Sp.init slots.length hasW) ops)
     (hd : ∀ op ∈ ops, DiscFull op)
     (hrel : (run (St.init slots hasW heap true) ops).1.freed ≠ 0)
@@ -110,8 +110,8 @@ theorem C08_exactly_once_full_discipline (slots : List Nat) (hasW heap : Bool) (
     (t : Nat) (ht : t ≠ 0) (hmem : t ∈ slots ++ storedAll ops (run (St.init slots hasW heap true) ops).2) :
     (run (St.init slots hasW heap true) ops).1.drops.count t +
       (handedAll ops (run (St.init slots hasW heap true) ops).2).count t = 1 :=
-  exactly_once slots hasW heap hlen ops hal (fun op h => (hd op h).owned)
-    (full_run (rel_init slots hasW heap true hlen)
+  exactly_once slots hasW heap hlen hlt ops hal (fun op h => (hd op h).owned)
+    (full_run (rel_init slots hasW heap true hlen hlt)
       (by intro i hi; simp only [St.init] at hi ⊢; exact getD_ne_zero_of_mem slots i hi hocc) rfl ops hal hd).1 hrel hnd t ht hmem
 
 /-- Tie to the source: which store each push form performs, and the exact shape of the cell primitives
@@ -120,11 +120,9 @@ theorem C08_exactly_once_full_discipline (slots : List Nat) (hasW heap : Bool) (
 theorem C08_source_store_kinds :
     Gen.storePush = .assign ∧ Gen.storePushInit = .initBranch ∧ Gen.storePushSlice = .copyAll ∧
     Gen.storePushSliceInit = .perSlotInitCopy ∧ Gen.storePushSliceClone = .cloneAll ∧ Gen.storePushSliceCloneInit = .perSlotInitClone ∧
-    Gen.pinCheckZeroed = "{unsafe{(*slice_from_raw_parts(ptras*constu8,size_of::<T>())).iter().all(|x|*x==0)}}" ∧
-    Gen.pinTakeInner = "{core::mem::replace(&mut*self.0.get(),MaybeUninit::<T>::zeroed()).assume_init()}" ∧
-    Gen.pinCellDrop = "{if!UnsafeSyncCell::check_zeroed(self.0.get_mut().as_mut_ptr()){unsafe{self.0.get_mut().assume_init_drop()}}}" ∧
-    Gen.pinCopyFromSlice = "{unsafe{ptr::copy_nonoverlapping(src.as_ptr(),dst.as_mut_ptr(),src.len());}}" :=
-  ⟨rfl, rfl, rfl, rfl, rfl, rfl, rfl, rfl, rfl, rfl⟩
+    Gen.cellFacts = { checkZeroedAllBytes := true, takeInnerLeavesZeros := true, duplicateLeavesCell := true,
+                      dropSkipsZeroed := true, copyWholeSlice := true } :=
+  ⟨rfl, rfl, rfl, rfl, rfl, rfl, rfl⟩
 
 /-- Non-vacuity: owned items, three overwrites (each old value destroyed once), pop_move (5 handed out, not destroyed), refused push (8 given back), release (6, 7 destroyed once). -/
 example :
